@@ -131,7 +131,7 @@ def contract_call(ip, f, q, con, arguments):
         m = con.decreases(s0, **a)
         c.prove(f"{ip.frames[-1].qual}/call:{q.split(':')[1]}/decreases", z3.And(m >= 0, m < c.task.rec_measure), kind="termination")
     # exceptional outcomes
-    conds = [cond(s0, **a) for (cls, cond, post) in con.raises]
+    conds = [cond(s0, **a) if cond is not None else c.fresh("may_raise", B) for (cls, cond, post) in con.raises]
     for ri, (cls, cond, post) in enumerate(con.raises):
         b = conds[ri]
         # several classes under the same condition: the contract leaves open which one is raised
